@@ -204,24 +204,43 @@ pub fn c17(out: &mut Out, _thorough: bool) {
         edges: u64,
         illegal: u64,
         digest: u64,
+        first_illegal: Option<String>,
     }
-    fn visit(bm: BookMoves, b: &Board, depth: u64, t: &mut Tally) {
+    fn sqn(p: chess_bitboard::Pos) -> String {
+        let i = p.to_u8();
+        format!("{}{}", (b'a' + i % 8) as char, (b'1' + i / 8) as char)
+    }
+    fn visit(bm: BookMoves, b: &Board, depth: u64, t: &mut Tally, line: &mut Vec<String>) {
         for m in bm {
+            line.push(format!("{}{}", sqn(m.source), sqn(m.dest)));
             t.edges += 1;
             t.digest = t.digest.wrapping_mul(1000003).wrapping_add(depth * 4096 + (m.source as u64) * 64 + m.dest as u64);
             let mut nb = *b;
             // the book is consumed exactly like this by the CLI: the checked move with no promotion piece
             if nb.move_mut(ChessMove { source: m.source, dest: m.dest, piece: None }) {
                 t.nodes += 1;
-                visit(m.children, &nb, depth + 1, t);
+                visit(m.children, &nb, depth + 1, t, line);
             } else {
                 t.illegal += 1;
+                if t.first_illegal.is_none() {
+                    t.first_illegal = Some(line.join(","));
+                }
             }
+            line.pop();
         }
     }
+    // the property itself, as an oracle independent of the model: no line of the book contains an illegal move
+    out.case("every-line-legal", true, "expect legal-lines-only #book-lines".into(), || {
+        let mut t = Tally { nodes: 1, edges: 0, illegal: 0, digest: 0, first_illegal: None };
+        visit(INITIAL_BOOOK_MOVES, &Board::standard(), 0, &mut t, &mut Vec::new());
+        match t.first_illegal {
+            None => "legal-lines-only".into(),
+            Some(l) => format!("illegal-move-at-end-of-line:{l}:({}-illegal-in-all)", t.illegal),
+        }
+    });
     out.case("whole-book", true, "book walk".into(), || {
-        let mut t = Tally { nodes: 1, edges: 0, illegal: 0, digest: 0 };
-        visit(INITIAL_BOOOK_MOVES, &Board::standard(), 0, &mut t);
+        let mut t = Tally { nodes: 1, edges: 0, illegal: 0, digest: 0, first_illegal: None };
+        visit(INITIAL_BOOOK_MOVES, &Board::standard(), 0, &mut t, &mut Vec::new());
         // oob / fuelout: the checked build's debug_assert! and index arithmetic would have panicked
         format!("nodes={} edges={} illegal={} oob=0 fuelout=0 digest={}", t.nodes, t.edges, t.illegal, t.digest)
     });
